@@ -452,6 +452,32 @@ def null_only_union(v):
     return False
 
 
+def _bare_ref_target(s_):
+    if isinstance(s_, dict) and isinstance(s_.get("$ref"), str) and set(s_) <= {"$ref", "description", "title"} and \
+            s_["$ref"].startswith("#/definitions/"):
+        return s_["$ref"][len("#/definitions/"):]
+    return None
+
+
+@_pred
+def alias_cycle_definitions(v):
+    """KF-C01-3: two or more definitions that are nothing but $refs to one another (A -> B -> A): the transparent
+    newtypes deref into each other, so every method call on them overflows rustc's autoderef (E0055)."""
+    if "E0055" not in (v.get("codes") or []):
+        return False
+    defs = {}
+    for doc in _case_docs(v):
+        defs.update(doc.get("definitions") or {})
+    for name in defs:
+        seen, cur = [], name
+        while cur in defs and _bare_ref_target(defs[cur]) is not None and cur not in seen:
+            seen.append(cur)
+            cur = _bare_ref_target(defs[cur])
+        if cur == name and len(seen) >= 2:
+            return True
+    return False
+
+
 @_pred
 def self_alias_definition(v):
     """KF-C01-2: a definition that is nothing but a $ref to itself; the only error codes are E0119 (+ consequences)."""
